@@ -5264,10 +5264,18 @@ class ParseCtx:
                 statements = stmt.children[1:]
             loop_node = LoopNode(loop_name)
             previous_break = self.innermost_break_handler
+            # (a name is visible inside the body of its loop, nowhere else: statements are parsed back to front, so an entry left behind
+            # would be found by the statements in front of the loop, and a nested loop of the same name would keep hiding the outer one)
+            names_another_loop = loop_name in self.break_handlers
+            previous_named_break = self.break_handlers.get(loop_name)
             self.break_handlers[loop_name] = loop_node.get_break_handler
             self.innermost_break_handler = loop_node.get_break_handler
             child_node = self._parse_stmt_seq(statements)
             self.innermost_break_handler = previous_break
+            if names_another_loop:
+                self.break_handlers[loop_name] = previous_named_break
+            else:
+                self.break_handlers.pop(loop_name, None)
             loop_node.set_child(child_node)
             return ProgramData.imbue(loop_node,
                 DTAG.SOURCE_LINE, stmt.meta.line,
